@@ -464,6 +464,10 @@ class Program:
         keep = known_names([os.path.join(d, f) for d in (rules_dir, spec_dir) if os.path.isdir(d) for f in sorted(os.listdir(d)) if f.endswith(".py")])
         self.inline_stats = {"inlined_calls": 0, "helpers_removed": [], "helpers_inlined": []}
         cm_stats = {}
+        if os.environ.get("VERIF_SA_NO_DISPATCH") != "1":
+            from .dispatch import spell_out_dispatch
+
+            cm_stats.update(spell_out_dispatch({mn: m.tree for mn, m in self.modules.items() if not mn.startswith(PKG + ".testing") and mn != PKG + ".testing"}))
         if os.environ.get("VERIF_SA_NO_PARTIAL") != "1":
             from .partials import partials_as_closures
 
